@@ -7,6 +7,8 @@ mod fuzz;
 mod hello;
 mod observe;
 mod project;
+#[cfg(feature = "serialize")]
+mod ser;
 mod states;
 mod sweeps;
 
@@ -87,6 +89,8 @@ fn main() {
         "sweep-ciphers" => sweeps::cmd_ciphers(&args[2..]),
         "sweep-registry" => registry::cmd_registry(&args[2..]),
         "hello" => hello::cmd_hello(&args[2..]),
+        #[cfg(feature = "serialize")]
+        "ser" => ser::cmd_ser(&args[2..]),
         "sweep-sites" => sweeps::cmd_sites(&args[2..]),
         "states-sweep" => states::cmd_sweep(&args[2..]),
         "states-run" => states::cmd_run(&args[2..]),
